@@ -12,7 +12,7 @@ Obligations are emitted under the property that relies on them:
 """
 import z3
 from pyvc.runner import Task
-from pyvc.sym import s_and, s_or, s_not, s_implies, SInt, is_sym, same_value
+from pyvc.sym import s_and, s_or, s_not, s_implies, SInt, is_sym, same_value, Unsupported
 from pyvc.values import Obj, SBits, OpaqueSeq, OpaqueElem, TupObj
 from pyvc.interp import LoopSpec, PyRaise
 from spec import iso
@@ -142,7 +142,8 @@ def task_glue(I, prop, v):
     loops = extract.loops_of(f_enc.node)
     # the loop that iterates `segments` is the one whose iterable is the parameter
     seg_loop = [i + 1 for i, n in enumerate(loops) if isinstance(n.iter, __import__('ast').Name) and n.iter.id == 'segments']
-    I.ground('%s._encode.has_segment_loop' % prop, len(seg_loop) == 1, witness=repr(seg_loop))
+    if len(seg_loop) != 1:
+        raise Unsupported('loop contract does not attach: _encode has %d loops over its segments parameter' % len(seg_loop))
     if seg_loop:
         I.loopspecs[('segno.encoder:_encode', seg_loop[0])] = LoopSpec(inv, havoc)
 
